@@ -31,6 +31,7 @@ func init() {
 	gens["c05-literals"] = c05Literals
 	gens["c05-case"] = c05Case
 	gens["c05-saddr-bytes"] = c05SaddrBytes
+	gens["c05-prefix"] = c05Prefix
 }
 
 // c05Long: LONG values - fixed-size buffers and limits inside the parser sit far above the
@@ -227,6 +228,35 @@ func c05Literals(c *enumx.Ctx) {
 			}
 		}
 	}
+}
+
+// c05Prefix: Parse takes the text of a record; the parser looks for the parenthesised header and does not insist on
+// the word in front of it.  Every token / harvested literal, behind 0, 1 or 2 other bytes, IN FRONT of the header
+// (and between the header and the body): positions computed relative to the header apply to text that starts earlier.
+func c05Prefix(c *enumx.Ctx) {
+	hv := harvestedAuparse()
+	words := append([]string{}, tokens...)
+	for _, l := range hv.Strings {
+		if len(l) <= 12 {
+			words = append(words, l)
+		}
+	}
+	bodies := []string{"pid=1 uid=0 old auid=4294967295 new auid=1000 old ses=4294967295 new ses=5 res=1", "arch=c000003e syscall=2 success=yes exit=0 a0=1 items=0 exe=\"/x\" key=(null)", "pid=1 msg='op=login acct=\"root\" exe=\"/x\" hostname=? addr=? terminal=ssh res=failed'"}
+	for _, w := range words {
+		for _, pad := range []string{"", "x", " ", "xy", "audit", "\xff"} {
+			if !c.Mine() {
+				continue
+			}
+			for _, t := range typeClasses {
+				for _, b := range bodies {
+					parseBody(c, t, pad+w+"(1700000000.123:42): "+b)
+					parseBody(c, t, pad+w+" audit(1700000000.123:42): "+b)
+					parseBody(c, t, "audit(1700000000.123:42)"+pad+w+": "+b)
+				}
+			}
+		}
+	}
+	c.Sample("Parse(1006, \"xold (1700000000.123:42): pid=1 uid=0 old auid=...\")")
 }
 
 // c05Case: the tokens of a log line in other letter cases (MSG=, Msg=, TYPE=, AUDIT( ...), with and without
